@@ -44,6 +44,8 @@ fn craft_wm_codes(freq: &mut HashMap<usize, u32>, sigma: usize) -> Vec<PrefixCod
         .collect::<Vec<_>>();
 
     f.sort_by_key(|x| x.1);
+    #[cfg(qwt_verif)]
+    crate::verif::order_ties(&mut f, |x| x.0, |x| x.1);
 
     let mut c = vec![0; alph_size * 4];
     let mut assignments = vec![PrefixCode { content: 0, len: 0 }; sigma + 1];
